@@ -101,7 +101,8 @@ func (s *Sim) convergedEDS(def *EDSDef) (bool, string, int) {
 			}
 		}
 	}
-	for node, pods := range byNode {
+	for _, node := range sortedKeys(byNode) {
+		pods := byNode[node]
 		if !nodes[node] {
 			return false, fmt.Sprintf("pod %s pinned to vanished node %q", pods[0].Name, node), 0
 		}
